@@ -126,15 +126,14 @@ class TraitCoerceType(TraitHandler):
 
     def validate(self, object, name, value):
         fv = self.fast_validate
-        tv = type(value)
 
         # If the value is already the desired type, then return it:
-        if tv is fv[1]:
+        if isinstance(value, fv[1]):
             return value
 
         # Else see if it is one of the coercable types:
         for typei in fv[2:]:
-            if tv is typei:
+            if typei is not None and isinstance(value, typei):
                 # Return the coerced value:
                 return fv[1](value)
 
